@@ -141,7 +141,10 @@ pub fn check_state_prog(s: &GenState, prog: &Program, spec: &SettingsSpec, ctx: 
     if item.generics != want_generics {
         ctx.violation(
             "C05/generics",
-            format!("item generics {:?}, expected {:?}", item.generics, want_generics),
+            format!(
+                "item generics {:?}, expected {:?}",
+                item.generics, want_generics
+            ),
             replay(),
             size,
         );
@@ -154,65 +157,101 @@ pub fn check_state_prog(s: &GenState, prog: &Program, spec: &SettingsSpec, ctx: 
     };
     let args0 = &s.insts[0];
     // fields: source fields minus PhantomData, then the marker
-    let kept_params: BTreeSet<usize> = def.params.iter().enumerate().filter(|(_, p)| !p.skipped).map(|(i, _)| i).collect();
+    let kept_params: BTreeSet<usize> = def
+        .params
+        .iter()
+        .enumerate()
+        .filter(|(_, p)| !p.skipped)
+        .map(|(i, _)| i)
+        .collect();
     let used = used_params(def);
-    let unused: BTreeSet<String> = kept_params.difference(&used).map(|i| format!("_{i}")).collect();
+    let unused: BTreeSet<String> = kept_params
+        .difference(&used)
+        .map(|i| format!("_{i}"))
+        .collect();
     let marker_of = |ty: &syn::Type| -> Option<BTreeSet<String>> {
         let s = ty_str(ty);
-        let inner = s.strip_prefix("::core::marker::PhantomData<")?.strip_suffix('>')?;
+        let inner = s
+            .strip_prefix("::core::marker::PhantomData<")?
+            .strip_suffix('>')?;
         let inner = inner.trim_start_matches('(').trim_end_matches(')');
-        Some(inner.split(',').filter(|x| !x.is_empty()).map(|x| x.to_string()).collect())
+        Some(
+            inner
+                .split(',')
+                .filter(|x| !x.is_empty())
+                .map(|x| x.to_string())
+                .collect(),
+        )
     };
-    let cmp_fields = |got: &[FieldAst], src: &Fields, where_: &str, allow_marker: bool, ctx: &mut Ctx| {
-        let want: Vec<(Option<String>, (String, bool))> = src
-            .iter()
-            .filter(|(_, f)| !matches!(f.ty, Ty::Phantom(_)))
-            .map(|(n, f)| (n.map(|s| s.to_string()), ex.field(f, Some(args0))))
-            .collect();
-        let mut got: Vec<&FieldAst> = got.iter().collect();
-        // trailing marker
-        let mut got_marker: Option<BTreeSet<String>> = None;
-        if allow_marker {
-            if let Some(last) = got.last() {
-                if let Some(m) = marker_of(&last.ty) {
-                    got_marker = Some(m);
-                    got.pop();
+    let cmp_fields =
+        |got: &[FieldAst], src: &Fields, where_: &str, allow_marker: bool, ctx: &mut Ctx| {
+            let want: Vec<(Option<String>, (String, bool))> = src
+                .iter()
+                .filter(|(_, f)| !matches!(f.ty, Ty::Phantom(_)))
+                .map(|(n, f)| (n.map(|s| s.to_string()), ex.field(f, Some(args0))))
+                .collect();
+            let mut got: Vec<&FieldAst> = got.iter().collect();
+            // trailing marker
+            let mut got_marker: Option<BTreeSet<String>> = None;
+            if allow_marker {
+                if let Some(last) = got.last() {
+                    if let Some(m) = marker_of(&last.ty) {
+                        got_marker = Some(m);
+                        got.pop();
+                    }
                 }
             }
-        }
-        if got.len() != want.len() {
-            ctx.violation(
-                "C05/field-count",
-                format!("{where_}: {} fields emitted, source has {} (after dropping PhantomData)", got.len(), want.len()),
-                replay(),
-                size,
-            );
-            return got_marker;
-        }
-        for (g, (wn, (wt, wc))) in got.iter().zip(want.iter()) {
-            if g.name != *wn {
-                ctx.violation("C05/field-name", format!("{where_}: field {:?} vs source {:?}", g.name, wn), replay(), size);
-            }
-            let gt = ty_str(&g.ty);
-            if gt != crate::settings::canon_type_str(wt) {
+            if got.len() != want.len() {
                 ctx.violation(
-                    "C05/field-type",
-                    format!("{where_}.{}: emitted `{gt}`, source field type corresponds to `{}`", wn.clone().unwrap_or_default(), crate::settings::canon_type_str(wt)),
+                    "C05/field-count",
+                    format!(
+                        "{where_}: {} fields emitted, source has {} (after dropping PhantomData)",
+                        got.len(),
+                        want.len()
+                    ),
                     replay(),
                     size,
                 );
+                return got_marker;
             }
-            if spec.codec_attrs && g.compact != *wc {
-                ctx.violation(
-                    "C05/compact-attr",
-                    format!("{where_}.{}: compact attribute {} but source says {}", wn.clone().unwrap_or_default(), g.compact, wc),
-                    replay(),
-                    size,
-                );
+            for (g, (wn, (wt, wc))) in got.iter().zip(want.iter()) {
+                if g.name != *wn {
+                    ctx.violation(
+                        "C05/field-name",
+                        format!("{where_}: field {:?} vs source {:?}", g.name, wn),
+                        replay(),
+                        size,
+                    );
+                }
+                let gt = ty_str(&g.ty);
+                if gt != crate::settings::canon_type_str(wt) {
+                    ctx.violation(
+                        "C05/field-type",
+                        format!(
+                            "{where_}.{}: emitted `{gt}`, source field type corresponds to `{}`",
+                            wn.clone().unwrap_or_default(),
+                            crate::settings::canon_type_str(wt)
+                        ),
+                        replay(),
+                        size,
+                    );
+                }
+                if spec.codec_attrs && g.compact != *wc {
+                    ctx.violation(
+                        "C05/compact-attr",
+                        format!(
+                            "{where_}.{}: compact attribute {} but source says {}",
+                            wn.clone().unwrap_or_default(),
+                            g.compact,
+                            wc
+                        ),
+                        replay(),
+                        size,
+                    );
+                }
             }
-        }
-        got_marker
-    };
+            got_marker
+        };
     let mut marker: Option<BTreeSet<String>> = None;
     match (&item.kind, &def.body) {
         (ItemKind::Struct(got), Body::Struct(src)) => {
@@ -220,7 +259,12 @@ pub fn check_state_prog(s: &GenState, prog: &Program, spec: &SettingsSpec, ctx: 
             // form
             let src_named = matches!(src, Fields::Named(v) if v.iter().any(|(_, f)| !matches!(f.ty, Ty::Phantom(_))));
             if src_named != matches!(got, FieldsAst::Named(_)) {
-                ctx.violation("C05/struct-form", "named/unnamed form differs from the source".to_string(), replay(), size);
+                ctx.violation(
+                    "C05/struct-form",
+                    "named/unnamed form differs from the source".to_string(),
+                    replay(),
+                    size,
+                );
             }
         }
         (ItemKind::Enum(got), Body::Enum(src)) => {
@@ -235,18 +279,39 @@ pub fn check_state_prog(s: &GenState, prog: &Program, spec: &SettingsSpec, ctx: 
                 }
             }
             if got.len() != src.len() {
-                ctx.violation("C05/variant-count", format!("{} variants vs {}", got.len(), src.len()), replay(), size);
+                ctx.violation(
+                    "C05/variant-count",
+                    format!("{} variants vs {}", got.len(), src.len()),
+                    replay(),
+                    size,
+                );
             } else {
                 for (g, v) in got.iter().zip(src.iter()) {
                     if g.name != v.name {
-                        ctx.violation("C05/variant-name", format!("{} vs {}", g.name, v.name), replay(), size);
+                        ctx.violation(
+                            "C05/variant-name",
+                            format!("{} vs {}", g.name, v.name),
+                            replay(),
+                            size,
+                        );
                     }
-                    cmp_fields(g.fields.list(), &v.fields, &format!("variant {}", v.name), false, ctx);
+                    cmp_fields(
+                        g.fields.list(),
+                        &v.fields,
+                        &format!("variant {}", v.name),
+                        false,
+                        ctx,
+                    );
                 }
             }
         }
         _ => {
-            ctx.violation("C05/kind", "struct/enum kind differs from the source".to_string(), replay(), size);
+            ctx.violation(
+                "C05/kind",
+                "struct/enum kind differs from the source".to_string(),
+                replay(),
+                size,
+            );
         }
     }
     // marker names exactly the otherwise unused parameters
@@ -254,7 +319,10 @@ pub fn check_state_prog(s: &GenState, prog: &Program, spec: &SettingsSpec, ctx: 
     if got_marker != unused {
         ctx.violation(
             "C05/marker",
-            format!("PhantomData marker names {:?}, the parameters not used by any field are {:?}", got_marker, unused),
+            format!(
+                "PhantomData marker names {:?}, the parameters not used by any field are {:?}",
+                got_marker, unused
+            ),
             replay(),
             size,
         );
@@ -262,7 +330,10 @@ pub fn check_state_prog(s: &GenState, prog: &Program, spec: &SettingsSpec, ctx: 
     // every instantiation resolves to that one item with its own arguments
     let mut outcome = vec![];
     for (i, a) in s.insts.iter().enumerate() {
-        let id = match &registry.types[*el.root_ids.first().unwrap() as usize].ty.type_def {
+        let id = match &registry.types[*el.root_ids.first().unwrap() as usize]
+            .ty
+            .type_def
+        {
             scale_info::TypeDef::Composite(c) => c.fields[i].ty.id,
             _ => unreachable!("host is a struct"),
         };
@@ -355,10 +426,18 @@ pub fn state_of_program(prog: &Program) -> Option<GenState> {
             .collect(),
         _ => return None,
     };
-    let params = match (def.params.len(), def.params.first().map(|p| p.skipped), def.params.get(1).map(|p| p.skipped)) {
+    let params = match (
+        def.params.len(),
+        def.params.first().map(|p| p.skipped),
+        def.params.get(1).map(|p| p.skipped),
+    ) {
         (1, Some(true), _) => ParamForm::ConfigSkipped,
         (1, Some(false), _) => {
-            if insts.first().map(|a| matches!(&a[0], Ty::Named(d, _) if *d >= G_CFGA && *d <= G_CFGC)).unwrap_or(false) {
+            if insts
+                .first()
+                .map(|a| matches!(&a[0], Ty::Named(d, _) if *d >= G_CFGA && *d <= G_CFGC))
+                .unwrap_or(false)
+            {
                 ParamForm::ConfigKept
             } else {
                 ParamForm::One
@@ -370,12 +449,17 @@ pub fn state_of_program(prog: &Program) -> Option<GenState> {
         _ => return None,
     };
     let (form, fields) = match &def.body {
-        Body::Struct(Fields::Named(fs)) => (BodyForm::Named, fs.iter().map(|(_, f)| f.clone()).collect()),
+        Body::Struct(Fields::Named(fs)) => {
+            (BodyForm::Named, fs.iter().map(|(_, f)| f.clone()).collect())
+        }
         Body::Struct(Fields::Unnamed(fs)) => (BodyForm::Unnamed, fs.clone()),
         Body::Struct(Fields::Unit) => (BodyForm::Named, vec![]),
         Body::Enum(vs) => (
             BodyForm::Enum,
-            vs.iter().skip(1).flat_map(|v| v.fields.iter().map(|(_, f)| f.clone()).collect::<Vec<_>>()).collect(),
+            vs.iter()
+                .skip(1)
+                .flat_map(|v| v.fields.iter().map(|(_, f)| f.clone()).collect::<Vec<_>>())
+                .collect(),
         ),
     };
     Some(GenState {
